@@ -97,6 +97,22 @@ pub fn safe_execute<E: Engine>(e: &E, case: &E::Case) -> CaseResult {
     }
 }
 
+/// triage aid (never set by the registered commands): BSIM_ONLY=<text> keeps only violations
+/// whose class or detail contains the text, BSIM_NOT=<text> drops those that do
+fn triage_filter(v: &Violation) -> bool {
+    if let Ok(t) = std::env::var("BSIM_ONLY") {
+        if !(v.class.contains(&t) || v.detail.contains(&t)) {
+            return false;
+        }
+    }
+    if let Ok(t) = std::env::var("BSIM_NOT") {
+        if v.class.contains(&t) || v.detail.contains(&t) {
+            return false;
+        }
+    }
+    true
+}
+
 fn same_failure(a: &Violation, b: &Violation) -> bool {
     a.property == b.property && a.class == b.class
 }
@@ -117,7 +133,7 @@ pub fn minimise<E: Engine>(e: &E, case: &E::Case, target: &Violation, known: &Kn
             if let Some(v) = r
                 .violations
                 .iter()
-                .find(|v| same_failure(v, target) && known.matches(v).is_none())
+                .find(|v| same_failure(v, target) && known.matches(v).is_none() && triage_filter(v))
             {
                 best = cand;
                 best_v = v.clone();
@@ -255,7 +271,7 @@ pub fn run_check<E: Engine>(e: &E, opts: &Opts) -> Summary {
             let key: String = h.chars().take(160).collect();
             *harness_msgs.entry(key).or_insert(0) += 1;
         }
-        for v in r.violations.iter().filter(|v| v.property == prop) {
+        for v in r.violations.iter().filter(|v| v.property == prop && triage_filter(v)) {
             match known.matches(v) {
                 Some(id) => {
                     *known_hits.entry(id).or_insert(0) += 1;
@@ -281,7 +297,7 @@ pub fn run_check<E: Engine>(e: &E, opts: &Opts) -> Summary {
     }
 
     if std::env::var("BSIM_LIST").is_ok() {
-        for (k, c) in kinds.iter().take(40) {
+        for (k, c) in kinds.iter().take(2000) {
             println!("  [{c}x] {k}");
         }
     }
